@@ -22,29 +22,40 @@ ASSUMPTIONS = [
     "each chunk is compressed independently, as dechunk decompresses each chunk independently",
 ]
 
-ENC = {"none": 1, "gzip": 1 | 2, "compress": 1 | 4, "deflate": 1 | 8}
+ENC = {"none": 1, "gzip": 1 | 2, "compress": 1 | 4, "deflate": 1 | 8, "gzip+deflate": 1 | 2 | 8, "gzip+compress": 1 | 2 | 4, "compress+deflate": 1 | 4 | 8, "gzip+compress+deflate": 1 | 2 | 4 | 8}
+# the encoding values "can be OR'd" (SocketWrapper / RTCMReader docstrings): several compression flags mean the chunk
+# is decoded gzip first, then zlib, then raw deflate - i.e. it was encoded in the opposite order
+LAYERS = ("deflate", "compress", "gzip")  # encoding order, innermost first
 
 
-def compress(data, enc, wbits=15, level=6):
-    """per-chunk compression as a caster might do it: any window size 2^9..2^15 and any level are valid streams"""
-    if enc == "gzip":
+def _compress1(data, layer, wbits, level):
+    if layer == "gzip":
         c = zlib.compressobj(level, zlib.DEFLATED, wbits | 16)
-    elif enc == "compress":
+    elif layer == "compress":
         c = zlib.compressobj(level, zlib.DEFLATED, wbits)
-    elif enc == "deflate":
-        c = zlib.compressobj(level, zlib.DEFLATED, -wbits)
     else:
-        return data
+        c = zlib.compressobj(level, zlib.DEFLATED, -wbits)
     return c.compress(data) + c.flush()
 
 
+def compress(data, enc, wbits=15, level=6):
+    """per-chunk compression as a caster might do it: any window size 2^9..2^15 and any level are valid streams;
+    several codings are layered innermost-first (deflate, zlib, gzip)"""
+    if enc == "none":
+        return data
+    for layer in [l for l in LAYERS if l in enc.split("+")]:
+        data = _compress1(data, layer, wbits, level)
+    return data
+
+
 def decompress(data, enc):
-    if enc == "gzip":
-        return zlib.decompress(data, wbits=zlib.MAX_WBITS | 16)
-    if enc == "compress":
-        return zlib.decompress(data, wbits=zlib.MAX_WBITS)
-    if enc == "deflate":
-        return zlib.decompress(data, wbits=-zlib.MAX_WBITS)
+    for layer in reversed([l for l in LAYERS if l in enc.split("+")]):
+        if layer == "gzip":
+            data = zlib.decompress(data, wbits=zlib.MAX_WBITS | 16)
+        elif layer == "compress":
+            data = zlib.decompress(data, wbits=zlib.MAX_WBITS)
+        else:
+            data = zlib.decompress(data, wbits=-zlib.MAX_WBITS)
     return data
 
 
@@ -149,6 +160,8 @@ def o_chunked(case):
     n = len(encoded)
     mode = case["mode"]
     cls = set([f"enc-{case['enc']}", mode])
+    if "+" in case["enc"]:
+        cls.add("layered-compression")
     if case["enc"] != "none" and case.get("wbits", 15) != 15:
         cls.add("small-compression-window")
     if case["enc"] != "none" and any(c == "" for c in case["chunks"]):
@@ -210,7 +223,7 @@ _DATA = st.one_of(
 @st.composite
 def s_chunked(draw, tier):
     mode = draw(st.sampled_from(["all_partitions", "all_1_2_cuts", "generated", "generated"]))
-    enc = draw(st.sampled_from(["none", "none", "gzip", "compress", "deflate"]))
+    enc = draw(st.sampled_from(["none", "none", "none", "gzip", "compress", "deflate", "gzip", "compress", "deflate", "gzip+deflate", "gzip+compress", "compress+deflate", "gzip+compress+deflate"]))
     if mode == "all_partitions":
         enc = "none"
         chunks = draw(st.lists(st.binary(min_size=1, max_size=3).map(lambda b: b) | st.sampled_from([b"\r", b"\n", b"a", b"\r\n", b"0"]), min_size=1, max_size=2))
@@ -268,7 +281,7 @@ SUBS = [
         examples=(150, 3000),
         exhaustive=True,
         rule="partitions enumerated completely for short streams (all compositions for n <= 15; all 1- and 2-cut partitions for n <= 120), generated beyond; non-trivial = cut inside size line / chunk data / terminating CRLF",
-        need={"cut-in-size-line": 1, "cut-in-chunk-data": 1, "cut-inside-terminating-crlf": 1, "cut-between-data-and-crlf": 1, "enc-gzip": 1, "enc-deflate": 1, "enc-compress": 1, "all_partitions": 1, "small-compression-window": 1},
+        need={"cut-in-size-line": 1, "cut-in-chunk-data": 1, "cut-inside-terminating-crlf": 1, "cut-between-data-and-crlf": 1, "enc-gzip": 1, "enc-deflate": 1, "enc-compress": 1, "all_partitions": 1, "small-compression-window": 1, "layered-compression": 1},
         sample=_short,
     ),
     __import__("pv.fuzz.campaign", fromlist=["make"]).make("C12", ("C12",), runs=(15000, 400000), shards=(4, 16)),
